@@ -2909,7 +2909,12 @@ func (a *Agent) TaskDispatch(RequestID uint32, CommandID uint32, Parser *parser.
 								ReadOne = true
 
 								if ListOnly {
-									Dir += fmt.Sprintf("%s%s\n", RootDirPath[:len(RootDirPath)-1], FileName)
+									// drop the trailing wildcard of the listed path (the path may be empty)
+										var Prefix = RootDirPath
+										if len(Prefix) > 0 {
+											Prefix = Prefix[:len(Prefix)-1]
+										}
+										Dir += fmt.Sprintf("%s%s\n", Prefix, FileName)
 								} else {
 									LastModified = fmt.Sprintf("%02d/%02d/%d  %02d:%02d", LastAccessDay, LastAccessMonth, LastAccessYear, LastAccessHour, LastAccessMinute)
 									if IsDir {
